@@ -230,18 +230,22 @@ def _fresh_batch(prop, tier, master, n):
     done = 0
     from . import c17
     from .workload import mk
+    from .workload import PUBLIC
     pending = []
-    for _ in range(n):
+    for j in range(n):
         x = rng.random()
         if pending:
             c = pending.pop()
-        elif x < 0.35:
+        elif j < min(2 * len(PUBLIC), (2 * n) // 3):
+            # every public function at least twice, each under its own random hash seed
+            c = g.call('all', g.base() if rng.random() < 0.6 else None, fname=PUBLIC[j % len(PUBLIC)])
+        elif x < 0.6:
             # tie-prone inputs: vertices of a cell looked up again at its own resolution, poles, whole degrees
             w = [q for q in c17.vertex_walk(g, CTX) if q['f'] == 'lonlat_to_cell']
             rng.shuffle(w)
             pending = w[:3]
             c = pending.pop() if pending else g.call('all', None)
-        elif x < 0.5:
+        elif x < 0.8:
             c = mk('lonlat_to_cell', (float(rng.randrange(-180, 181, 15)), float(rng.choice([-90, 90, 0, 45, -45, 30, 60]))), g.res(0, 20))
         else:
             c = g.call('all', g.base() if rng.random() < 0.6 else None)
